@@ -204,6 +204,36 @@ def run(ctx, res):
                 res.violations.append({'key': None, 'sig': 'file_path-history', 'what': 'call %d of [file_path=A, file_path=B, A, B] over one unchanged mapping file in one process gives %s, the same call alone gives %s'
                                        % (i + 1, str(got)[:200], str(exp[x])[:200]), 'replay': {'calls': [c], 'index': i}})
                 break
+    # user-defined functions: the same call twice with a function that keeps module-level state, and the UDF file rewritten between two calls
+    from .c14 import gen_fn_case as _gfc
+    EXF = EX + 'fn/'
+    for rep in range(ctx.scale(3, 20)):
+        rows = [[str(i + 1), ctx.rng.choice(['a', 'b', 'c'])] for i in range(ctx.rng.choice([2, 3, 4]))]
+        st = {'cfg': {'nquads': False, 'mode': 'NO', 'udfs': 'udfs_state.py', 'udf_source': 'udfs_state.py'},
+              'sources': [{'key': 'S0', 'kind': 'csv', 'cols': ['id', 'v'], 'rows': rows}],
+              'doc': [{'id': EX + 'tm/T', 'src': 'S0', 'nonasserted': False, 'subj': tmq('templ', EX + 'r/{id}'), 'sjoins': [], 'classes': [], 'sgraphs': [],
+                       'poms': [{'preds': [tmq('const', EX + 'p/k')], 'objs': [{'m': tmq('exec', EX + 'ex/E0', 'iri', 'lit'), 'lang': None, 'dt': None, 'joins': []}], 'graphs': []},
+                                {'preds': [tmq('const', EX + 'p/t')], 'objs': [{'m': tmq('exec', EX + 'ex/E1', 'iri', 'lit'), 'lang': None, 'dt': None, 'joins': []}], 'graphs': []}]}],
+              'execs': [{'id': EX + 'ex/E0', 'fun': EXF + 'seq', 'inputs': [[EXF + 'p_v', 'ref', 'v']]}, {'id': EX + 'ex/E1', 'fun': EXF + 'tick', 'inputs': [[EXF + 'p_prefix', 'const', 'k']]}]}
+        outs = family.run_sequence(ctx, [st, copy.deepcopy(st), copy.deepcopy(st)], reuse_dirs=True)
+        res.evaluations += 1
+        res.count('stateful-udf:repeated')
+        if not (family.same(outs[0], outs[1]) and family.same(outs[0], outs[2])):
+            res.violations.append({'key': None, 'sig': 'stateful-udf', 'what': 'the same call three times in one process with a user-defined function that keeps module-level state: %s' % [str(o)[:120] for o in outs],
+                                   'replay': {'calls': [st], 'index': 1}})
+        a = _gfc(ctx.rng)
+        tries = 0
+        while not any(str(e.get('fun', '')).endswith(('/dup', '/nullif', '/pair')) for e in a.get('execs', [])) and tries < 50:
+            a = _gfc(ctx.rng); tries += 1
+        a['cfg']['udf_source'] = 'udfs.py'; a['cfg'].pop('_alt', None)
+        b = copy.deepcopy(a); b['cfg']['udf_source'] = 'udfs_alt.py'
+        second = family.overwrite_run(ctx, a, b)[1]
+        expb = family.run_sequence(ctx, [b])[0]
+        res.evaluations += 1
+        res.count('shared-directory:rewritten-udf-file')
+        if not family.same(second, expb):
+            res.violations.append({'key': None, 'sig': 'rewritten:udfs', 'what': 'the UDF file rewritten between two calls of one process: the second call gives %s, the same call alone gives %s'
+                                   % (str(second)[:200], str(expb)[:200]), 'replay': {'calls': [b], 'index': 1}})
     from .c10 import gen_table_case, xml_safe
     for k in ['csv', 'json', 'view', 'tsv'] * ctx.scale(1, 5):
         ta, tb = xml_safe(gen_table_case(ctx.rng)), xml_safe(gen_table_case(ctx.rng))
